@@ -1,7 +1,7 @@
 (* C11 - Tangents, curvature and Jacobians are the true derivatives. Statements only. *)
 From Coq Require Import List Arith QArith Qcanon.
 From BZ Require Import Base.Ops Base.PyVal Model.Curve Gen.PyFnHelpers Gen.PyFnTriangle Gen.PyFnTriangleIntersection
-  Theory.CurveDeriv Theory.TriBlossom Theory.Predicates.
+  Theory.CurveDeriv Theory.TriBlossom Theory.Predicates Model.Triangle Theory.TriLink Theory.TriLink2 Theory.TriJacList.
 Import ListNotations.
 
 (* the hodograph is the derivative: in the ring of dual numbers T[eps]/(eps^2), B[v]((1-s) - eps, s + eps)
@@ -25,6 +25,25 @@ Theorem C11_jacobian_nets_are_partial_derivatives :
        (fadd K (iterD K w n g) (fun j k => omul K (ofnat K n) (iterD K w (n - 1) (D K w' f) j k))).
 Proof. exact @epsD_is_derivative. Qed.
 Print Assumptions C11_jacobian_nets_are_partial_derivatives.
+
+(* LIST LEVEL: evaluating the nets returned by the models of jacobian_s / jacobian_t (the index walks over the rows of the
+   documented ordering) gives exactly the eps-coefficient of the dual-number evaluation of the triangle in the direction
+   (-1, 1, 0) resp. (-1, 0, 1) - the formal partial derivatives d/ds, d/dt.  Every degree d + 1 >= 1, every net of the right
+   size, every barycentric triple, any commutative ring. *)
+Theorem C11_jacobian_s_net_is_the_partial_derivative :
+  forall (T : Type) (K : Ops T), ring_of K ->
+  forall (d : nat) (v : list T), wf_flat (S d) v -> forall l1 l2 l3 : T,
+  tri_bernstein K d (jac_s K (S d) v) l1 l2 l3
+  = epsD K (l1, l2, l3) (osub K (o0 K) (o1 K), o1 K, o0 K) (S d) (fun_of K (split_rows (S (S d)) v)) (fun _ _ => o0 K) 0%nat 0%nat.
+Proof. exact @jac_s_is_partial_derivative. Qed.
+Print Assumptions C11_jacobian_s_net_is_the_partial_derivative.
+Theorem C11_jacobian_t_net_is_the_partial_derivative :
+  forall (T : Type) (K : Ops T), ring_of K ->
+  forall (d : nat) (v : list T), wf_flat (S d) v -> forall l1 l2 l3 : T,
+  tri_bernstein K d (jac_t K (S d) v) l1 l2 l3
+  = epsD K (l1, l2, l3) (osub K (o0 K) (o1 K), o0 K, o1 K) (S d) (fun_of K (split_rows (S (S d)) v)) (fun _ _ => o0 K) 0%nat 0%nat.
+Proof. exact @jac_t_is_partial_derivative. Qed.
+Print Assumptions C11_jacobian_t_net_is_the_partial_derivative.
 
 (* the scalar pieces, REGENERATED from the Python sources *)
 Theorem C11_cross_product : forall a b c d : Q, py_cross_product (V2 a b) (V2 c d) = VQ (a * d - b * c).
